@@ -13,12 +13,12 @@ use vstd::std_specs::cmp::PartialEqSpec;
 use std::alloc::Allocator;
 use std::collections::{HashMap, HashSet};
 verus! {
-broadcast use {vstd::laws_eq::group_laws_eq, vstd::std_specs::hash::group_hash_axioms, trusted_keys::group_trusted_keys};
+broadcast use {vstd::laws_eq::group_laws_eq, vstd::std_specs::hash::group_hash_axioms, trusted_keys::group_trusted_keys, trusted_b64::axiom_key_of_chars};
 pub type Uid = [u8; 16];
 pub struct SecError { x: u8 }
 pub enum Error {
     AuthorisationExists(), InvalidUserDate(), InvalidRightDate(),
-    InvalidJsonObject(String), MissingJsonField(String), Json(serde_json::Error), Cryptography(SecError),
+    InvalidJsonObject(String), MissingJsonField(String), InvalidNode(String), Json(serde_json::Error), Cryptography(SecError),
 }
 pub type Result<T> = std::result::Result<T, Error>;
 impl From<serde_json::Error> for Error {
@@ -34,7 +34,17 @@ pub fn fmt_stub() -> (r: String) { unimplemented!() }
 #[verifier::external_body]
 pub fn uid_decode(base64: &str) -> (r: std::result::Result<Uid, SecError>) { unimplemented!() }
 #[verifier::external_body]
-pub fn base64_decode(data: &[u8]) -> (r: std::result::Result<Vec<u8>, SecError>) { unimplemented!() }
+pub fn base64_decode(data: &[u8]) -> (r: std::result::Result<Vec<u8>, SecError>) ensures r is Ok ==> r->Ok_0@ == spec_b64(data@) { unimplemented!() }
+pub mod trusted_b64 {
+    use vstd::prelude::*;
+    use vstd::string::StringSliceAdditionalSpecFns;
+    pub uninterp spec fn spec_b64(data: Seq<u8>) -> Seq<u8>;
+        /// the key bytes a base64 text denotes (the UTF-8 bytes of a str are determined by its characters)
+    pub uninterp spec fn key_of_chars(c: Seq<char>) -> Seq<u8>;
+    #[verifier::external_body]
+    pub broadcast proof fn axiom_key_of_chars(s: &str) ensures #[trigger] spec_b64(s.spec_bytes()) == key_of_chars(s@) {}
+}
+pub use trusted_b64::{spec_b64, key_of_chars};
 
 // ---------------------------------------------------------------- serde_json: an uninterpreted JSON tree
 pub mod serde_json {
@@ -64,8 +74,10 @@ pub mod serde_json {
         #[verifier::external_body]
         pub fn get(&self, k: &str) -> (r: Option<&Value>) ensures (match r { Some(v) => Some(*v), None => None }) == self.s_get(k@) { unimplemented!() }
     }
+    /// the JSON tree denoted by a text (uninterpreted: the same function on every path that decodes a stored row)
+    pub uninterp spec fn spec_json_parse(s: Seq<char>) -> Value;
     #[verifier::external_body]
-    pub fn from_str(s: &str) -> (r: Result<Value, Error>) { unimplemented!() }
+    pub fn from_str(s: &str) -> (r: Result<Value, Error>) ensures r is Ok ==> r->Ok_0 == spec_json_parse(s@) { unimplemented!() }
 }
 pub mod system_entities {
 //@ extract src/database/system_entities.rs :: const ID_FIELD
@@ -110,6 +122,8 @@ use system_entities::*;
 //@ use-contract u1_room.rs :: Authorisation::add_user
 //@ use-contract u1_room.rs :: Authorisation::add_user_admin
 //@ use-contract u1_room.rs :: Authorisation::add_right
+//@ use-contract u1_room.rs :: Room::add_admin_user
+//@ use-contract u1_room.rs :: Room::add_auth
 
 // ---------------------------------------------------------------- representation invariant of a group
 pub closed spec fn users_wf(m: Map<Vec<u8>, Vec<User>>) -> bool { forall|k: Vec<u8>| #[trigger] m.contains_key(k) ==> users_sorted(m[k]@) }
@@ -231,6 +245,30 @@ pub closed spec fn auth_shape(v: serde_json::Value) -> bool {
             r is Ok ==> auth_wf(r->Ok_0),
 //@ end
 
+// ---------------------------------------------------------------- what a stored entry row (its JSON object, short field ids) denotes
+pub closed spec fn row_obj(json: Seq<char>) -> Option<serde_json::JsonMap> { serde_json::spec_json_parse(json).s_obj() }
+pub closed spec fn get_str(m: serde_json::JsonMap, k: Seq<char>) -> Option<Seq<char>> { match m.s_get(k) { Some(v) => v.s_str(), None => None } }
+pub closed spec fn get_bool(m: serde_json::JsonMap, k: Seq<char>) -> Option<bool> { match m.s_get(k) { Some(v) => v.s_bool(), None => None } }
+/// the right a stored sys.EntityRight row denotes, dated `valid_from`: entity, own-rows flag, all-rows flag - normalised (all-rows implies own-rows)
+pub closed spec fn right_of_row(r: EntityRight, valid_from: i64, json: Seq<char>) -> bool {
+    row_obj(json) is Some && ({
+        let m = row_obj(json)->Some_0;
+        get_str(m, RIGHT_ENTITY_SHORT@) is Some && get_bool(m, RIGHT_MUTATE_SELF_SHORT@) is Some && get_bool(m, RIGHT_MUTATE_ALL_SHORT@) is Some
+        && er_valid_from(r) == valid_from && er_entity(r)@ == get_str(m, RIGHT_ENTITY_SHORT@)->Some_0
+        && er_all(r) == get_bool(m, RIGHT_MUTATE_ALL_SHORT@)->Some_0
+        && er_self(r) == (get_bool(m, RIGHT_MUTATE_SELF_SHORT@)->Some_0 || get_bool(m, RIGHT_MUTATE_ALL_SHORT@)->Some_0)
+    })
+}
+/// the user entry a stored sys.UserAuth row denotes, dated `date`
+pub closed spec fn user_of_row(u: User, date: i64, json: Seq<char>) -> bool {
+    row_obj(json) is Some && ({
+        let m = row_obj(json)->Some_0;
+        get_str(m, USER_VERIFYING_KEY_SHORT@) is Some
+        && u.date == date && u.verifying_key@ == key_of_chars(get_str(m, USER_VERIFYING_KEY_SHORT@)->Some_0)
+        && u.enabled == (match m.s_get(USER_ENABLED_SHORT@) { Some(v) => match v.s_bool() { Some(b) => b, None => true }, None => true })
+    })
+}
+
 //@ extract src/database/room.rs :: fn entity_right_from_json
 //@ result r
 //@ rewrite E16 "\"sys\.EntityRight[A-Za-z_.]*\"\.to_string\(\)" => "fmt_stub()" x*
@@ -239,6 +277,8 @@ pub closed spec fn auth_shape(v: serde_json::Value) -> bool {
         ensures
             // [live_right_normalised]{C10} a right decoded on the live path is normalised and dated as given
             r is Ok ==> right_normalised(r->Ok_0) && er_valid_from(r->Ok_0) == valid_from,
+            // [live_right_is_right_of_row]{C10} and is exactly the right the stored row denotes
+            r is Ok ==> right_of_row(r->Ok_0, valid_from, json@),
 //@ end
 
 //@ extract src/database/room.rs :: fn user_from_json
@@ -249,6 +289,111 @@ pub closed spec fn auth_shape(v: serde_json::Value) -> bool {
         ensures
             // [live_user_dated_as_given]{C10}
             r is Ok ==> r->Ok_0.date == date,
+            // [live_user_is_user_of_row]{C10} the user entry decoded on the live path is exactly the one the stored row denotes
+            r is Ok ==> user_of_row(r->Ok_0, date, json@),
 //@ end
+
+// ================================================================= import path: the same stored rows decoded by the room-definition importer
+//@ extract src/database/node.rs :: struct Node
+//@ end
+//@ extract src/database/edge.rs :: struct Edge
+//@ end
+//@ extract src/database/room_node.rs :: struct UserNode
+//@ end
+//@ extract src/database/room_node.rs :: struct EntityRightNode
+//@ end
+//@ extract src/database/room_node.rs :: struct AuthorisationNode
+//@ end
+//@ extract src/database/room_node.rs :: struct RoomNode
+//@ end
+pub closed spec fn opt_json(o: Option<String>) -> Seq<char> { match o { Some(s) => s@, None => Seq::<char>::empty() } }
+
+//@ extract src/database/room_node.rs :: impl EntityRightNode / fn parse
+//@ result r
+//@ rewrite E16 "(?s)\"Invalid EntityRight node[A-Za-z_: ]*\"\s*\.to_string\(\)" => "fmt_stub()" x*
+//@ spec
+        ensures
+            // [import_right_is_right_of_row]{C10} the importer decodes a stored right row to exactly the right the live path decodes from it (same date, entity, flags, same normalisation)
+            r is Ok ==> self.node._json is Some && right_of_row(r->Ok_0, self.node.mdate, opt_json(self.node._json)),
+            r is Ok ==> right_normalised(r->Ok_0),
+//@ end
+
+//@ extract src/database/room_node.rs :: impl UserNode / fn parse
+//@ result r
+//@ rewrite E16 "(?s)\"Invalid UserNode[A-Za-z_:' ]*\"\s*\.to_string\(\)" => "fmt_stub()" x*
+//@ spec
+        ensures
+            // [import_user_is_user_of_row]{C10} the importer decodes a stored user row to exactly the user entry the live path decodes from it
+            r is Ok ==> self.node._json is Some && user_of_row(r->Ok_0, self.node.mdate, opt_json(self.node._json)),
+//@ end
+
+
+impl Authorisation {
+    #[verifier::external_body]
+    pub fn default() -> (r: Authorisation)
+        ensures r.users@ == Map::<Vec<u8>, Vec<User>>::empty(), r.user_admins@ == Map::<Vec<u8>, Vec<User>>::empty(), r.rights@ == Map::<String, Vec<EntityRight>>::empty()
+    { unimplemented!() }
+}
+impl Room {
+    #[verifier::external_body]
+    pub fn default() -> (r: Room) ensures r.admins@ == Map::<Vec<u8>, Vec<User>>::empty(), r.authorisations@ == Map::<Uid, Authorisation>::empty() { unimplemented!() }
+}
+/// every group of the room satisfies the group invariant and the admin list is date-ordered
+pub closed spec fn room_wf(r: Room) -> bool {
+    users_wf(r.admins@) && forall|id: Uid| #[trigger] r.authorisations@.contains_key(id) ==> auth_wf(r.authorisations@[id])
+}
+
+//@ extract src/database/room_node.rs :: impl AuthorisationNode / fn parse
+//@ result r
+//@ attr #[verifier::loop_isolation(false)]
+//@ rewrite E3 "\.\.Default::default\(\)" => "..Authorisation::default()" x1
+//@ loop "for right_node in &self.right_nodes" iter it
+            invariant auth_wf(authorisation), authorisation.id == self.node.id,
+//@ loop "for user_node in &self.user_nodes" iter it
+            invariant auth_wf(authorisation), authorisation.id == self.node.id,
+//@ loop "for user in &self.user_admin_nodes" iter it
+            invariant auth_wf(authorisation), authorisation.id == self.node.id,
+//@ insert before-stmt "authorisation.add_right(entity_right)"
+            let ghost auth_before = authorisation; let ghost right_copy = entity_right;
+//@ insert after-stmt "authorisation.add_right(entity_right)"
+            proof { lemma_rights_append_wf(auth_before.rights@, authorisation.rights@, right_copy); }
+//@ insert before-stmt "authorisation.add_user(user)"
+            let ghost auth_before = authorisation; let ghost user_copy = user;
+//@ insert after-stmt "authorisation.add_user(user)"
+            proof { lemma_users_append_wf(auth_before.users@, authorisation.users@, user_copy); }
+//@ insert before-stmt "authorisation.add_user_admin(user)"
+            let ghost auth_before = authorisation; let ghost user_copy = user;
+//@ insert after-stmt "authorisation.add_user_admin(user)"
+            proof { lemma_users_append_wf(auth_before.user_admins@, authorisation.user_admins@, user_copy); }
+//@ spec
+        ensures
+            // [imported_group_well_formed]{C10} a group imported from a peer's definition satisfies the same representation invariant as one built live or reloaded: entries are fed to the same add_* mutators in list order, their refusal is propagated
+            r is Ok ==> auth_wf(r->Ok_0) && r->Ok_0.id == self.node.id,
+//@ end
+
+//@ extract src/database/room_node.rs :: impl RoomNode / fn parse
+//@ result r
+//@ attr #[verifier::loop_isolation(false)]
+//@ rewrite E3 "\.\.Default::default\(\)" => "..Room::default()" x1
+//@ loop "for user in &self.admin_nodes" iter it
+            invariant users_wf(room.admins@), room.id == self.node.id, room.authorisations@ == Map::<Uid, Authorisation>::empty(),
+//@ loop "for auth in &self.auth_nodes" iter it
+            invariant room_wf(room), room.id == self.node.id,
+//@ insert before-stmt "room.add_admin_user(user)"
+            let ghost room_before = room; let ghost user_copy = user;
+//@ insert after-stmt "room.add_admin_user(user)"
+            proof { lemma_users_append_wf(room_before.admins@, room.admins@, user_copy); }
+//@ spec
+        ensures
+            // [imported_room_well_formed]{C10}
+            r is Ok ==> room_wf(r->Ok_0) && r->Ok_0.id == self.node.id,
+//@ end
+
+//@ obligation L_live_and_import_decode_alike props C10 : the live decoder and the importer, applied to the same stored row and date, produce rights (user entries) with the same date, entity (key), flags: the decisions that depend on them are the same
+pub proof fn L_live_and_import_decode_alike(a: EntityRight, b: EntityRight, d: i64, json: Seq<char>)
+    requires right_of_row(a, d, json), right_of_row(b, d, json),
+    ensures er_valid_from(a) == er_valid_from(b), er_entity(a)@ == er_entity(b)@, er_self(a) == er_self(b), er_all(a) == er_all(b),
+{
+}
 } // verus!
 fn main() {}
